@@ -57,6 +57,12 @@ def build(spec):
         else:
             raise ValueError(k)
     df = pd.DataFrame(data, columns=[c["name"] for c in spec["cols"]])
+    if spec.get("duplicate_unused_label"):
+        # two columns that carry the same label (what pd.concat(axis=1) of two tables gives); no formula names them
+        n_ = len(df)
+        extra = pd.DataFrame({"a_": [float(i) for i in range(n_)], "b_": ["u%d" % (i % 2) for i in range(n_)]})
+        extra.columns = ["remark", "remark"]
+        df = pd.concat([df, extra], axis=1)
     idx = spec.get("index")
     if idx is not None:
         if idx and isinstance(idx[0], list):
